@@ -283,6 +283,21 @@ impl<'a, T: Read + Write + Seek> PointCloudWriter<'a, T> {
         let contains = |n: RecordName| prototype.iter().any(|p| p.name == n);
         let get = |n: RecordName| prototype.iter().find(|p| p.name == n);
 
+        // Integer ranges must not be empty, such a prototype cannot be read again
+        for record in prototype {
+            match record.data_type {
+                RecordDataType::Integer { min, max } | RecordDataType::ScaledInteger { min, max, .. } => {
+                    if max < min {
+                        Error::invalid(format!(
+                            "Maximum value '{max}' and minimum value '{min}' of record '{}' are invalid",
+                            record.name.tag_name()
+                        ))?
+                    }
+                }
+                _ => {}
+            }
+        }
+
         // Cartesian or spherical?
         validate_cartesian(prototype)?;
         validate_spherical(prototype)?;
